@@ -46,6 +46,13 @@ pub fn gen_name(src: &mut Src) -> String {
     for _ in 1..n {
         s.push(REST[src.index(REST.len())] as char);
     }
+    // names are not confined to ASCII: a letter of another script now and then, anywhere in the name
+    if src.prob(1, 8) {
+        let c = *src.pick(&['é', 'µ', 'Ω', '中', 'ß', 'я']);
+        let at = src.index(s.chars().count() + 1);
+        let byte_at = s.char_indices().nth(at).map(|x| x.0).unwrap_or(s.len());
+        s.insert(byte_at, c);
+    }
     if KEYWORDS.contains(&s.to_ascii_uppercase().as_str()) {
         s.push_str("_1");
     }
@@ -80,7 +87,11 @@ fn gen_string_literal(src: &mut Src) -> String {
     let n = src.usize_in(0, 8);
     let mut s = String::from("\"");
     for _ in 0..n {
-        s.push(CH[src.index(CH.len())] as char);
+        if src.prob(1, 12) {
+            s.push(*src.pick(&['é', 'µ', '中', '😀', 'Ω']));
+        } else {
+            s.push(CH[src.index(CH.len())] as char);
+        }
     }
     s.push('"');
     s
